@@ -44,6 +44,25 @@ func runIDs(e *Env) {
 	g := streams.New(proto)
 	e.Note("capacity", capN)
 
+	// ---- releasing the reserved id, which nobody can hold: "not in use", nothing changes ----
+	if !e.NoFaults && tp.Chance(1, 12) {
+		k.Fault("ids.release-of-reserved-id")
+		reported, panicked := false, false
+		func() {
+			defer func() {
+				if recover() != nil {
+					panicked = true
+				}
+			}()
+			reported = g.Clear(0)
+		}()
+		if reported || panicked {
+			// its own signature: this input is a recorded finding (known_findings.json)
+			k.Violate("C08", "C08/release-of-the-reserved-id-takes-effect", "Clear(0) on a fresh allocator (capacity %d) reported in-use=%v, panicked=%v: id 0 is reserved and never handed out, releasing it must report false and change nothing", capN, reported, panicked)
+			return
+		}
+	}
+
 	// ---- (f) sequential use hands out every non-reserved id before failing ----
 	if tp.Chance(1, 8) {
 		seqCheck(k, proto, capN)
